@@ -131,6 +131,25 @@ claim("C07",
       "Not decided: the concatenated path text at run time; multi-fault behaviour.",
       "static analysis: emission-chain shape rules, SSA dominance (refusal before flip), SSA/AST value identity of path-element arguments")
 
+claim("C08",
+      "Decides structural necessary conditions of enum conversion: agreement of the declared, validated and implemented action sets with error defaults; totality of member collection (Detect filters only on constant-ness and type identity), "
+      "of SortedMembers and of the case loop (every member ends in a case, a justified skip-comment or an error; enum:unknown required; default arm appended; mapped target must exist; enum:map > transformers > same name); "
+      "exact canonicalisation (constant.Make(v).ExactString()) wherever member values are compared or keyed; unused enum:map keys reported.",
+      "Not decided: the run-time result per member/non-member value; custom transformers (user code).",
+      "static analysis: switch-set agreement, guard inventory on the member store, AST shape of the case loop with SSA dominance of the unknown/default steps, use-site analysis of member values")
+
+claim("C10",
+      "Decides structural necessary conditions of update methods: signature guards in method.Parse, shape guards and nil-source guard of convertTo which emits no assignment of its own, the zero-value category table as SSA path facts "
+      "(flag read on every true path, own category, update-only, target type only via types.Identical), the shape of the emitted zero guard, comparability established before `!= ZeroValue`, and writes only through the target.",
+      "Not decided: which fields survive for a given pre-state and source value at run time.",
+      "static analysis: SSA path facts over shouldCheckAgainstZero, emission-chain shape rules, AST guard ordering for comparability")
+
+claim("C11",
+      "Decides structural necessary conditions of pointer/default semantics: opt-in gate and dedicated hint for *T -> U, documented precedence of overlapping builders in BuildSteps, non-nil address-of results for T -> *U, "
+      "constructor typestate (guarded by UseConstructor and identity of both method types, cleared before the single call), default:update applied under If(source != nil), map values always assigned.",
+      "Not decided: the values returned for nil/non-nil inputs at run time. Precedence table precedencePairs in checker/c10.go is the documented behaviour.",
+      "static analysis: SSA path facts for gates, order table over the rule list, AST/SSA dominance for the constructor typestate")
+
 NOT_APPLICABLE_REASON = "rules for this property are designed (DESIGN.md §2) but the checker code is not built yet in this round; not claimed until it runs"
 
 def main():
